@@ -407,26 +407,36 @@ func checkC20(c *Ctx, r *Report) {
 	if fi := need(c, r, "C20.d", gr); fi != nil {
 		viol := ""
 		var sites []string
-		for _, wf := range callsIn(fi.SSA, false, nameIs("os.WriteFile")) {
-			sites = append(sites, w.pos(wf.Pos()))
-			pa := sliceOf(wf.Common().Args[0])
+		for _, fw := range w.fileWritesOf(fi.SSA, 0) {
+			sites = append(sites, w.pos(fw.Site.Pos()))
+			pa := fw.PathAtoms
 			if !pa.hasFieldNamed("OutputPath") || !pa.hasFieldNamed("RoutesConfig") || len(pa.Consts) > 0 {
-				viol = fmt.Sprintf("%s: the routes file path is not exactly routesConfig.outputPath (fields %v consts %v)", w.pos(wf.Pos()), pa.fieldNames(), pa.Consts)
+				viol = fmt.Sprintf("%s: the routes file path is not exactly routesConfig.outputPath (fields %v consts %v)", w.pos(fw.Site.Pos()), pa.fieldNames(), pa.Consts)
 			}
-			ma := sliceOf(wf.Common().Args[2])
+			if fw.PermAtoms == nil {
+				viol = fmt.Sprintf("%s: the routes file is created without an explicit mode (%s)", w.pos(fw.Site.Pos()), fw.Via)
+				continue
+			}
+			ma := fw.PermAtoms
 			if !ma.Calls["generator/routes.getOutputFileMod"] || !ma.hasFieldNamed("OutputFilePerms") {
-				viol = fmt.Sprintf("%s: the routes file mode is not getOutputFileMod(routesConfig.outputFilePerms)", w.pos(wf.Pos()))
+				viol = fmt.Sprintf("%s: the routes file mode is not getOutputFileMod(routesConfig.outputFilePerms)", w.pos(fw.Site.Pos()))
 			}
 		}
-		for _, md := range callsIn(fi.SSA, false, nameIs("os.MkdirAll")) {
-			sites = append(sites, w.pos(md.Pos()))
-			pa := sliceOf(md.Common().Args[0])
-			if !pa.hasFieldNamed("OutputPath") || !pa.Calls["path/filepath.Dir"] {
-				viol = fmt.Sprintf("%s: the directory created is not filepath.Dir(routesConfig.outputPath)", w.pos(md.Pos()))
+		// the directory created is the output path's directory, wherever in the package it is created
+		for _, fn := range w.SSAFuncs {
+			if fn.Pkg == nil || short(fn.Pkg.Pkg.Path()) != "generator/routes" {
+				continue
+			}
+			for _, md := range callsIn(fn, false, nameIs("os.MkdirAll")) {
+				sites = append(sites, w.pos(md.Pos()))
+				pa := sliceOf(md.Common().Args[0])
+				if !pa.hasFieldNamed("OutputPath") || !pa.Calls["path/filepath.Dir"] {
+					viol = fmt.Sprintf("%s: the directory created is not filepath.Dir(routesConfig.outputPath)", w.pos(md.Pos()))
+				}
 			}
 		}
-		if len(sites) < 2 {
-			viol = "expected os.MkdirAll and os.WriteFile in GenerateRoutes"
+		if len(w.fileWritesOf(fi.SSA, 0)) < 1 {
+			viol = "GenerateRoutes does not write the routes file (directly or through a helper that writes what it is given)"
 		}
 		o := r.add("C20.d", "fieldflow", gr+":path+mode", "the routes file goes to routesConfig.outputPath with mode getOutputFileMod(routesConfig.outputFilePerms)", []string{gr}, sites, viol)
 		o.NonTrivial = true
@@ -521,15 +531,35 @@ func checkC20(c *Ctx, r *Report) {
 	if fi := need(c, r, "C20.d", gout); fi != nil {
 		viol := ""
 		var sites []string
-		for _, cl := range callsIn(fi.SSA, false, func(n string) bool { return n == "os.WriteFile" || n == "os.MkdirAll" }) {
-			sites = append(sites, w.pos(cl.Pos()))
-			pa := sliceOf(cl.Common().Args[0])
-			if !pa.hasFieldNamed("OutputPath") || !pa.hasFieldNamed("SpecGeneratorConfig") || len(pa.Consts) > 0 {
-				viol = fmt.Sprintf("%s: path is not derived from specGeneratorConfig.outputPath alone (fields %v consts %v)", w.pos(cl.Pos()), pa.fieldNames(), pa.Consts)
+		var pathOperands []struct {
+			pos token.Pos
+			v   ssa.Value
+		}
+		for _, cl := range callsIn(fi.SSA, false, nameIs("os.MkdirAll")) {
+			pathOperands = append(pathOperands, struct {
+				pos token.Pos
+				v   ssa.Value
+			}{cl.Pos(), cl.Common().Args[0]})
+		}
+		for _, fw := range w.fileWritesOf(fi.SSA, 0) {
+			pathOperands = append(pathOperands, struct {
+				pos token.Pos
+				v   ssa.Value
+			}{fw.Site.Pos(), fw.Path})
+			if fw.Path == nil {
+				viol = fmt.Sprintf("%s: the spec is written through a helper that derives the path itself (%s)", w.pos(fw.Site.Pos()), fw.Via)
 			}
 		}
-		if len(sites) != 2 {
-			viol = fmt.Sprintf("expected one MkdirAll and one WriteFile in %s, found %d sites", gout, len(sites))
+		for _, po := range pathOperands {
+			cl := po
+			sites = append(sites, w.pos(cl.pos))
+			pa := sliceOf(cl.v)
+			if !pa.hasFieldNamed("OutputPath") || !pa.hasFieldNamed("SpecGeneratorConfig") || len(pa.Consts) > 0 {
+				viol = fmt.Sprintf("%s: path is not derived from specGeneratorConfig.outputPath alone (fields %v consts %v)", w.pos(cl.pos), pa.fieldNames(), pa.Consts)
+			}
+		}
+		if len(w.fileWritesOf(fi.SSA, 0)) != 1 {
+			viol = fmt.Sprintf("expected one file write in %s, found %d", gout, len(w.fileWritesOf(fi.SSA, 0)))
 		}
 		r.add("C20.d", "fieldflow", gout+":path", "the spec goes to openapiGeneratorConfig.specGeneratorConfig.outputPath", []string{gout}, sites, viol)
 	}
